@@ -15,7 +15,8 @@ from canon_schema import ty_tuple
 
 SDL = """
 type Query { items: [Item], keys: String, values: Int, get: String, copy: Item, pop: Int, update: String,
-             setdefault: String, node: Node, nodes: [Node!], plain: Item, count: Int! }
+             setdefault: String, node: Node, nodes: [Node!], plain: Item, count: Int!,
+             page(info: Int = 1): Int, search(context: String): String, pick(root: Int, self: Int, args: Int, kwargs: Int): Int }
 type Item implements Node { id: ID, items: [Item], keys: String, values: Int, get: String, copy: Item, name: String!, update: String }
 type Other implements Node { id: ID, pop: Int, setdefault: String, values: Int }
 interface Node { id: ID, values: Int }
@@ -281,6 +282,11 @@ FIXED = [
              {"t": "obj", "calls": [], "raises": [], "attrs": [["__typename__", {"t": "leaf", "v": "Item"}], ["id", {"t": "leaf", "v": "i1"}], ["keys", {"t": "leaf", "v": "k"}], ["name", {"t": "leaf", "v": "n"}]]},
              {"t": "obj", "calls": [], "raises": [], "attrs": [["__typename__", {"t": "leaf", "v": "Other"}], ["setdefault", {"t": "leaf", "v": "d"}]]}]}],
          ["node", {"t": "obj", "calls": [], "raises": [], "attrs": [["__typename__", {"t": "leaf", "v": "Item"}], ["keys", {"t": "leaf", "v": "kk"}]]}]]}),
+    ("protocol-argument-names-dict", "{ page search(context: \"c\") pick(root: 7, self: 1, args: 2, kwargs: 3) keys }",
+     {"t": "dict", "kv": [["page", {"t": "leaf", "v": 5}], ["search", {"t": "leaf", "v": "s"}], ["pick", {"t": "leaf", "v": 4}]]}),
+    ("protocol-argument-names-object", "{ page search(context: \"c\") pick(root: 7, self: 1, args: 2, kwargs: 3) }",
+     {"t": "obj", "calls": [], "raises": [], "attrs": [["page", {"t": "leaf", "v": 5}], ["search", {"t": "leaf", "v": "s"}], ["pick", {"t": "leaf", "v": 4}]]}),
+    ("protocol-argument-names-default-only", "{ page }", {"t": "dict", "kv": [["page", {"t": "leaf", "v": 5}]]}),
     ("root-none", "{ keys values items { id } }", {"t": "none"}),
 ]
 
